@@ -43,12 +43,10 @@ def parse_stats(out):
 
 
 def _tuples(out, tag):
-    """PrintT lines of the form <<"TAG", ...>> (single worker: one per line)."""
+    """PrintT tuples <<"TAG", ...>> of integers and strings; TLC pretty-prints long ones over several lines."""
     res = []
-    for line in out.splitlines():
-        line = line.strip()
-        if line.startswith('<<"%s"' % tag):
-            res.append(_parse_tla_tuple(line))
+    for m in re.finditer(r'<<\s*"%s"\s*,(.*?)>>' % tag, out, re.S):
+        res.append(_parse_tla_tuple('<<"%s",%s>>' % (tag, " ".join(m.group(1).split()))))
     return res
 
 
